@@ -476,6 +476,147 @@ class Normaliser:
         self.log_expansions += 1
         return out
 
+    # ---- dilogarithm: canonical representative within the orbit x -> 1-x, x/(x-1), 1/x
+    def _proved(self, *conds):
+        from .smt import check_sat
+        from .sym import Not
+
+        for c in conds:
+            if isinstance(c, bool):
+                if not c:
+                    return False
+                continue
+            if check_sat(self.assume + [Not(c)], 3000, use_cvc5=False)[0] != "unsat":
+                return False
+        return True
+
+    def lowest_terms(self, a):
+        """(numerator polynomial, denominator polynomial) of the term in lowest terms: sympy.cancel,
+        VERIFIED by exact cross-multiplication (the CAS is not trusted); None when not available."""
+        r = self.norm(a)
+        if not r.den:
+            return r.num, p_const(1)
+        dp = r.den_poly()
+        try:
+            import sympy
+
+            ids = sorted({i for m in list(r.num) + list(dp) for i, _ in m})
+            syms = {i: sympy.Symbol(f"a{i}") for i in ids}
+
+            def to_sym(p):
+                return sum(sympy.Rational(c.numerator, c.denominator) * sympy.Mul(*[syms[i] ** e for i, e in m]) for m, c in p.items())
+
+            def to_poly(e):
+                poly = sympy.Poly(sympy.expand(e), *[syms[i] for i in ids])
+                q = {}
+                for mon, c in poly.terms():
+                    m = tuple((ids[j], int(pw)) for j, pw in enumerate(mon) if pw)
+                    q[m] = Fraction(int(c.p), int(c.q))
+                return q
+
+            n2, d2 = sympy.fraction(sympy.cancel(to_sym(r.num) / to_sym(dp)))
+            pn, pd = to_poly(n2), to_poly(d2)
+            if p_key(p_mul(pn, dp)) == p_key(p_mul(r.num, pd)) and pd:
+                return pn, pd
+        except Exception:  # pragma: no cover
+            pass
+        return None
+
+    def li2_canon(self, arg, depth=0):
+        """Li2(arg) as  sign * Li2(canonical argument) + polynomial in logs, using only identities
+        whose range of validity is PROVED (z3) for the argument under the assumptions:
+          Euler    Li2(1-x)     = -Li2(x) - log(x) log(1-x) + pi^2/6        0 < x < 1
+          Landen   Li2(x/(x-1)) = -Li2(x) - log(1-x)^2 / 2                  x < 1
+          inverse  Li2(1/x)     = -Li2(x) - pi^2/6 - log(-x)^2 / 2          x < 0
+        The orbit is searched breadth-first (depth 3); the representative with the simplest normal
+        form is chosen.  Returns an R term or None (then the atom is kept as it is)."""
+        from .sym import add as r_add, mul as r_mul, power as r_pow, fn as r_fn, compare, ZERO, ONE
+
+        PI2_6 = R.const(Fraction(3141592653589793, 10**15) ** 2 / 6)
+
+        def cost(a):
+            lt = self.lowest_terms(a)
+            if lt is None:
+                r = self.norm(a)
+                return (2, len(r.num) + sum(len(p) for _, (p, _) in r.den.items()), 0, repr(r.key()))
+            n, d = lt
+            const_den = len(d) == 1 and () in d
+            return (0 if const_den else 1, len(n) + (0 if const_den else len(d)), sum(e for m in n for _, e in m), repr((p_key(n), p_key(d))))
+
+        def simp(a):
+            lt = self.lowest_terms(a)
+            if lt is None:
+                return a
+            n, d = lt
+            if len(d) == 1 and () in d:
+                return self.poly_term(p_scale(n, 1 / d[()]))
+            return r_mul(self.poly_term(n), r_pow(self.poly_term(d), -1))
+
+        best = (cost(arg), arg, ONE, ZERO)  # Li2(arg0) = sign * Li2(a) + rest
+        frontier = [(arg, ONE, ZERO)]
+        seen = {self.norm(arg).key()}
+        for _ in range(3):
+            nxt = []
+            for a, sign, rest in frontier:
+                one_minus = r_add(ONE, r_mul(R.const(-1), a))
+                cands = []
+                # Li2(a) with a = 1 - x, x = 1 - a  (Euler, needs 0 < x < 1)
+                if self._proved(compare("<", ZERO, one_minus), compare("<", one_minus, ONE)):
+                    x = simp(one_minus)
+                    cands.append((x, r_add(r_mul(R.const(-1), r_mul(r_fn("log", x), r_fn("log", a))), PI2_6)))
+                # Li2(a) with a = x/(x-1), x = a/(a-1)  (Landen, needs x < 1 <=> a < 1)
+                if self._proved(compare("<", a, ONE)):
+                    x = simp(r_mul(a, r_pow(r_add(a, R.const(-1)), -1)))
+                    # 1 - x = 1/(1-a)
+                    cands.append((x, r_mul(R.const(Fraction(-1, 2)), r_pow(r_fn("log", one_minus), 2))))
+                # Li2(a) with a = 1/x, x = 1/a  (inversion, needs x < 0 <=> a < 0)
+                if self._proved(compare("<", a, ZERO)):
+                    x = simp(r_pow(a, -1))
+                    cands.append((x, r_add(r_mul(R.const(-1), PI2_6), r_mul(R.const(Fraction(-1, 2)), r_pow(r_fn("log", r_mul(R.const(-1), a)), 2)))))
+                for x, extra in cands:
+                    try:
+                        k = self.norm(x).key()
+                    except (OutOfReach, ZeroDivisionError):
+                        continue
+                    if k in seen:
+                        continue
+                    seen.add(k)
+                    # Li2(a) = -Li2(x) + extra   =>   Li2(arg0) = sign*(-Li2(x) + extra) + rest
+                    item = (x, r_mul(R.const(-1), sign), r_add(rest, r_mul(sign, extra)))
+                    nxt.append(item)
+                    c = cost(x)
+                    if c < best[0]:
+                        best = (c, x, item[1], item[2])
+            frontier = nxt
+        if best[1] is arg:
+            return None
+        return r_add(r_mul(best[2], R("f", ("li2", best[1]))), best[3])
+
+    def _li2_norm(self, t):
+        from .sym import add as r_add, mul as r_mul, ONE
+
+        arg = t.args[1] if t.args[0] == "li2" else r_add(ONE, r_mul(R.const(-1), t.args[1]))
+        if arg.is_const:
+            return None
+        self._in_li2 = True
+        try:
+            try:
+                c = self.li2_canon(arg)
+            except (OutOfReach, ZeroDivisionError):
+                c = None
+        finally:
+            self._in_li2 = False
+        if c is None:
+            if t.args[0] == "spence":  # same function, one atom family
+                return RatFun(p_atom(self.atom_for(R("f", ("li2", arg)))))
+            return None
+        # the canonical term contains li2(canonical arg): norm it without re-canonicalising that atom
+        self._in_li2 = True
+        try:
+            return self.norm(c)
+        finally:
+            self._in_li2 = False
+
     def atom_for(self, t):
         if t.op == "v":
             i = self.atoms.get(("v", t.args[0]), ("v", t.args[0]))
@@ -513,6 +654,8 @@ class Normaliser:
         elif op == "f" and t.args[0] in ("log", "logabs") and self.assume and (r := self.log_expand(t)) is not None:
             pass
         elif op == "f" and t.args[0] == "logabs" and self.assume and (r := self.logabs_single(t)) is not None:
+            pass
+        elif op == "f" and t.args[0] in ("li2", "spence") and self.assume and not getattr(self, "_in_li2", False) and (r := self._li2_norm(t)) is not None:
             pass
         elif op in ("v", "f", "u"):
             r = RatFun(p_atom(self.atom_for(t)))
